@@ -204,7 +204,7 @@ def main():
         }],
         "checks": checks,
         "not_applicable": na,
-        "notes": "Technique family: static analysis only; no repository code is executed by any check. Known findings: /verif/known_findings.json. Seeded mutants: /verif/seeded/. Rules were also exercised against 320 behaviour-preserving edits and 180 property-preserving feature commits (DESIGN.md 7.3).",
+        "notes": "Technique family: static analysis only; no repository code is executed by any check. Known findings: /verif/known_findings.json. Seeded mutants: /verif/seeded/. Rules were also exercised against 320 behaviour-preserving edits and 240 property-preserving feature commits (DESIGN.md 7.3).",
     }
     json.dump(m, open("/verif/MANIFEST.json", "w"), indent=1)
     # validate
